@@ -494,7 +494,7 @@ fn part_aligned(ctx: &Arc<Ctx>) {
 /// (diamond / peninsula shaped levels, zoom gap) in which a third of the tiles share one payload.
 fn part_file_sources(ctx: &Arc<Ctx>, work: &std::path::Path) {
 	let mut tiles = TileMap::new();
-	for (z, pts) in [(1u8, vec![(0u32, 0u32), (1, 1)]), (3, vec![(1, 2), (2, 1), (2, 2), (2, 3), (3, 2), (2, 5), (5, 3), (6, 6)]), (4, vec![(3, 2), (4, 1), (4, 2), (4, 3), (5, 2), (5, 8), (6, 2), (7, 2), (8, 2), (9, 9), (12, 3), (2, 14)])] {
+	for (z, pts) in [(1u8, vec![(0u32, 0u32), (1, 1)]), (3, vec![(1, 2), (2, 1), (2, 2), (2, 3), (3, 2), (2, 7), (5, 0), (5, 3), (6, 6)]), (4, vec![(3, 2), (4, 1), (4, 2), (4, 3), (5, 2), (5, 15), (6, 2), (7, 2), (8, 2), (9, 0), (9, 9), (12, 3), (2, 7)])] {
 		for (x, y) in pts {
 			tiles.insert((z, x, y), if (x + 2 * y) % 3 == 0 { b"ocean".to_vec() } else { payload((z, x, y)) });
 		}
